@@ -332,6 +332,7 @@ pub fn table_ints(dir: &str, tier: &str, seed: u64, per: usize) -> (usize, u64) 
 pub fn run(args: &[String]) {
     // ints <dir> <tier> <seed> <rows per chunk>
     crate::alloc::silence_panics();
+    crate::chunks::set_table("ints");
     let (chunks, rows) = table_ints(&args[0], args[1].as_str(), args[2].parse().unwrap(), args[3].parse().unwrap());
     println!("{{\"chunks\":{chunks},\"rows\":{rows}}}");
 }
